@@ -1,10 +1,97 @@
-import EpModel.Model.Dec.Headers
-import EpModel.Spec.Decode
-/- C04 — first theorems (extended below as they are proved) -/
-namespace EpModel.Props.C04
-open EpModel EpModel.Dec
+import EpModel.Lemmas.StructSlice
+/-
+  C04 — decoding into header structs agrees with slicing.
 
-/-- every strict UDP slice lies inside the slice it was cut from. -/
+  `PacketHeaders` is modelled by its own hand-rolled loop (`phLoop`, `phNet`, `readTransport`,
+  Model/Dec/Headers.lean: offsets are pointer differences to the slice given to from_ether_type, the
+  Ethernet door adds 14 afterwards, errors get their length source in `read_transport`), the slicing family
+  by the cursor (`Cur.sliceEtherType`, `afterIp`, `sliceTransport`, Model/Dec/Sliced.lean: a running
+  offset and length source).  The IPv6 extension chain is walked by one function in two modes
+  (`extsLoop sm`): struct mode stores into the fixed slots of `Ipv6Extensions` and ends the walk, without
+  an error, at a header that no longer fits.
+
+  Proved, for every memory / byte string and all three doors of the strict family:
+    * both accept or both reject - unless struct decoding ended early at an extension header of kind
+      43/44/51/60, which it then reports as the payload's protocol (`Early`): the documented exception,
+      and the only way the slicing door can fail while the struct door succeeds;
+    * when both reject, the errors are identical (layer, offsets, lengths, length source);
+    * when both accept, the struct holds exactly the headers the slices convert to: same link, the header
+      windows of the same link extensions in the same order, the same IP header / AH / extension area /
+      fragmentation flag / payload protocol and window (`IpAgree`), the same transport header, and the
+      payload covers the same byte range (`PayAgree`);
+    * `from_ip`: the struct door checks `len < 20` before the IHL and the slice door does not - on an
+      IPv4 nibble in fewer than 20 bytes both reject with different (both true, see C03 `ShortV4`) errors.
+  Not proved (correspondence + oracle only): the lax pair LaxPacketHeaders / LaxSlicedPacket, link-level
+  payloads (`PayAgree` says nothing when neither a network nor a transport layer was decoded), and that the
+  header *values* extracted from equal windows are equal (that is C08 / C15).
+-/
+namespace EpModel.Props.C04
+open EpModel EpModel.Dec EpModel.Lemmas.StructSlice
+
+/-- struct-mode and slice-mode walks of every IPv6 extension chain: same next header, fragmentation
+    flag, rest and stop reason - or the struct walk ended, without an error, at a header of kind
+    43 / 44 / 51 / 60 that no longer fits `Ipv6Extensions` -/
+theorem ext_walks_agree_or_struct_is_full (g : Mem) (l0 nh : Nat) (frag : Bool) (slots slotsF : ExtSlots)
+    (o l : Nat) :
+    ExtsAgree (extsLoop g true l0 nh frag slots o l) (extsLoop g false l0 nh frag slotsF o l) :=
+  extsLoop_struct_slice g l0 nh frag slots slotsF o l
+
+/-- `read_transport` = the cursor's transport step: same transport header and payload range, or the same
+    error (up to the cursor's running offset) -/
+theorem read_transport_agrees (c : Cur) (g : Mem) (pl : IpPl) (hsrc : c.src = pl.src) (hnf : pl.frag = false)
+    (htp : c.r.tp = none) :
+    match c.sliceTransport g pl.num pl.w.o pl.w.l, readTransport g pl with
+    | .ok p, .ok (tp, pay) =>
+      p.link = c.r.link ∧ p.exts = c.r.exts ∧ p.net = c.r.net ∧ p.stop = c.r.stop ∧ p.tp = tp ∧
+        (match tp with
+         | some (.udp w) => pay = .udp ⟨w.o + 8, w.l - 8⟩ false
+         | some (.tcp w hl) => pay = .tcp ⟨w.o + hl, w.l - hl⟩ false
+         | some (.icmp4 w) => pay = .icmp4 ⟨w.o + icmp4HeaderLen g w.o, w.l - icmp4HeaderLen g w.o⟩ false
+         | some (.icmp6 w) => pay = .icmp6 ⟨w.o + 8, w.l - 8⟩ false
+         | none => pay = .ip pl)
+    | .error e, .error e' => e = lenAddOff c.off e'
+    | _, _ => False :=
+  transport_agree c g pl hsrc hnf htp
+
+/-- PacketHeaders::from_ether_type vs SlicedPacket::from_ether_type, every ether type and byte string -/
+theorem headers_from_ether_type_agree_with_slicing (et : Nat) (b : Bytes) :
+    Verdict (memOf b) 0 Packet.empty (Packet.empty.setLink (.etherPayload et ⟨0, b.length⟩))
+      (slicedFromEtherType (memOf b) et b.length) (phFromEtherType (memOf b) et 0 b.length) :=
+  from_ether_type_agree (memOf b) et b.length
+
+/-- PacketHeaders::from_ethernet_slice vs SlicedPacket::from_ethernet -/
+theorem headers_from_ethernet_agree_with_slicing (b : Bytes) :
+    match slicedFromEthernet (memOf b) b.length, phFromEthernet (memOf b) b.length with
+    | .ok p, .ok x =>
+      (x.p.link = some (.eth2 ⟨0, 14⟩) ∧ p.link = some (.eth2 ⟨0, b.length⟩) ∧ x.p.exts = p.exts.map hdrExt ∧
+        NetAgree x.p.net p.net ∧ x.p.tp = p.tp ∧ PayAgree (memOf b) x.pay p) ∨ Early x
+    | .error e, .error e' => e = e'
+    | .error _, .ok x => Early x
+    | .ok _, .error _ => False :=
+  from_ethernet_agree (memOf b) b.length
+
+/-- PacketHeaders::from_ip_slice vs SlicedPacket::from_ip -/
+theorem headers_from_ip_agree_with_slicing (b : Bytes) :
+    (memOf b 0 / 16 = 4 ∧ b.length < 20 ∧ (∃ e, phFromIp (memOf b) b.length = .error e) ∧
+        ∃ e, slicedFromIp (memOf b) b.length = .error e) ∨
+      Verdict (memOf b) 0 Packet.empty Packet.empty (slicedFromIp (memOf b) b.length)
+        (phFromIp (memOf b) b.length) :=
+  from_ip_agree (memOf b) b.length
+
+/-- consequence: slicing never accepts what struct decoding rejects -/
+theorem struct_rejects_implies_slicing_rejects (et : Nat) (b : Bytes) (e : PErr)
+    (h : phFromEtherType (memOf b) et 0 b.length = .error e) :
+    slicedFromEtherType (memOf b) et b.length = .error e := by
+  have hv := headers_from_ether_type_agree_with_slicing et b
+  rw [h] at hv
+  cases hs : slicedFromEtherType (memOf b) et b.length with
+  | ok p => rw [hs] at hv; simp [Verdict] at hv
+  | error e' =>
+    rw [hs] at hv
+    simp only [Verdict] at hv
+    rw [hv, lenAddOff_zero]
+
+/-- UDP: the slice handed out never extends past the UDP length field nor past the data. -/
 theorem udp_within (g : Mem) (o l : Nat) (w : Win) (h : udpFromSlice g o l = .ok w) :
     o ≤ w.o ∧ w.o + w.l ≤ o + l := by
   unfold udpFromSlice at h
